@@ -126,6 +126,57 @@ func c20Randomness(c *eng.Ctx) {
 			default:
 				c.OK(f, site, rd.Pos(), "crypto/rand.Read(p.coefficients[1:])")
 			}
+			// drawn once, unconditionally: a second or conditional draw (rejection sampling on the
+			// coefficient values, e.g. "redraw the leading coefficient until it is non-zero") makes
+			// the coefficients non-uniform, and t-1 shares then exclude candidate secrets
+			site = "coefficients drawn exactly once"
+			if len(reads) != 1 {
+				c.Violation(f, site, reads[1].Pos(), fmt.Sprintf("%d crypto/rand.Read calls in makePolynomial: coefficients are (re)drawn more than once", len(reads)), nil)
+			} else if h := eng.Reach(eng.Query{Fn: f, StartAfter: rd, Target: func(in ssa.Instruction) bool { return in == ssa.Instruction(rd) }}); h != nil {
+				c.Violation(f, site, rd.Pos(), "the random fill can execute again after it executed (it lies on a cycle): conditional redraws bias the coefficients", h.Witness)
+			} else {
+				c.OK(f, site, rd.Pos(), "one crypto/rand.Read, not on a cycle")
+			}
+			site = "no branch on the random coefficients"
+			var condOnCoeff ssa.Instruction
+			for _, b := range f.Blocks {
+				iff := eng.IfOf(b)
+				if iff == nil {
+					continue
+				}
+				seen := map[ssa.Value]bool{}
+				var reads func(v ssa.Value, d int) bool
+				reads = func(v ssa.Value, d int) bool {
+					if v == nil || seen[v] || d > 10 {
+						return false
+					}
+					seen[v] = true
+					if ia, ok := v.(*ssa.IndexAddr); ok {
+						if fa, ok := c20FieldLoad(ia.X); ok && eng.FieldVar(fa).Name() == "coefficients" {
+							return true
+						}
+					}
+					if _, ok := v.(*ssa.Call); ok {
+						return false
+					}
+					if in, ok := v.(ssa.Instruction); ok {
+						for _, op := range in.Operands(nil) {
+							if *op != nil && reads(*op, d+1) {
+								return true
+							}
+						}
+					}
+					return false
+				}
+				if reads(iff.Cond, 0) {
+					condOnCoeff = iff
+				}
+			}
+			if condOnCoeff != nil {
+				c.Violation(f, site, condOnCoeff.(*ssa.If).Cond.Pos(), "makePolynomial branches on the value of a coefficient ("+eng.ExprDeep(condOnCoeff.(*ssa.If).Cond)+"): anything done under that condition conditions the coefficients' distribution", nil)
+			} else {
+				c.OK(f, site, rd.Pos(), "no condition in makePolynomial reads the coefficients")
+			}
 			// allocation length degree+1
 			site = "coefficients allocated with degree+1 entries"
 			var mk *ssa.MakeSlice
